@@ -4,8 +4,8 @@ import FiberModel.Generated.C06Facts
 /-
 Driver for C06. Case fields (after the id):
   cfg  req0  later(`;`-separated requests or `-`)  implObs
-cfg     := imm(0/1)[,cs][,hh][,ipv][,mw][,ph][,po][,rr][,split][,srv][,tp]   (flags in this order; at most
-           one of hh, mw, po, rr; po only with imm = 1)
+cfg     := imm(0/1)[,cs][,hh][,ipv][,mw][,na][,nf][,ph][,po][,rr][,split][,srv][,tp][,uo]   (flags in this
+           order; at most one of hh, mw, na, nf, po, rr, uo; po only with imm = 1)
 request := proto|name|rest|query|headers|cookies|host|body   (pairs: `hexk=hexv,…` or `-`;
            body: `n` | `r:<hex>` | `f:<pairs>` | `j:<pairs>` | `m:<pairs>~<file pairs>` |
                  `z:<hex list of encodings>:<hex list of layers>`)
@@ -28,18 +28,19 @@ def parseCfg (s : String) : Option Cfg :=
   | i :: flags => do
     let imm ← if i == "1" then some true else if i == "0" then some false else none
     -- canonical spelling only: known flags, strictly ascending
-    let known := ["cs", "hh", "ipv", "mw", "ph", "po", "rr", "split", "srv", "tp"]
+    let known := ["cs", "hh", "ipv", "mw", "na", "nf", "ph", "po", "rr", "split", "srv", "tp", "uo"]
     if !(flags.all known.contains) then none
     let rec asc : List String → Bool
       | a :: b :: r => a < b && asc (b :: r)
       | _ => true
     if !asc flags then none
-    let chains := flags.filter ["hh", "mw", "po", "rr"].contains
+    let chains := flags.filter ["hh", "mw", "na", "nf", "po", "rr", "uo"].contains
     if chains.length > 1 then none
     -- rewriting the path is the handler's own doing: without the option nothing is promised across it
     if flags.contains "po" && !imm then none
     let chain := if flags.contains "hh" then 1 else if flags.contains "mw" then 2 else if flags.contains "rr" then 3
-      else if flags.contains "po" then 4 else 0
+      else if flags.contains "po" then 4 else if flags.contains "nf" then 5 else if flags.contains "na" then 6
+      else if flags.contains "uo" then 7 else 0
     some { imm, chain, cs := flags.contains "cs", ipv := flags.contains "ipv", ph := flags.contains "ph",
            split := flags.contains "split", tp := flags.contains "tp", srv := flags.contains "srv" }
   | [] => none
